@@ -50,15 +50,20 @@ Theorem C10_no_stale_signature : forall h o,
 Proof. exact C10_no_stale_l. Qed.
 Print Assumptions C10_no_stale_signature.
 
-(* the invariant behind both: after every history the store is the image of the live channels
-   (field by field, nothing else), and that image is unique *)
+(* the invariant behind both: after every history the store is literally the image of the live
+   channels: for each live channel (in id order) its channel-table entries and one peer-table entry per
+   listed peer, inserted into the empty store - nothing else *)
 Theorem C10_store_is_image : forall h, forallb wop_ok h = true ->
+  snd (wrun h) = image (fst (wrun h)).
+Proof. exact C10_store_eq_image_l. Qed.
+Print Assumptions C10_store_is_image.
+(* the same, field by field: a channel-table key holds the field of the live machine's snapshot, a
+   peer-table key exists exactly for the listed peers of live channels; every live machine satisfies
+   the machine invariant of C01 *)
+Theorem C10_store_fieldwise : forall h, forallb wop_ok h = true ->
   Rep (fst (wrun h)) (snd (wrun h)) /\ wfW (fst (wrun h)).
 Proof. exact C10_invariant_l. Qed.
-Print Assumptions C10_store_is_image.
-Theorem C10_image_unique : forall W s s', Rep W s -> Rep W s' -> s = s'.
-Proof. exact Rep_unique. Qed.
-Print Assumptions C10_image_unique.
+Print Assumptions C10_store_fieldwise.
 
 (* ---------- non-vacuity ---------- *)
 Definition xid : bytes := repeat Byte.x07 32.
